@@ -246,6 +246,10 @@ def run_oracle(mod, sc, case, tier, replay=False):
     return ctx, discs
 
 
+class _ShrinkTimeout(BaseException):
+    """Not an Exception on purpose: Hypothesis lets BaseExceptions escape its engine."""
+
+
 def _run_shard(args):
     """Worker: run one (sub-check, shard).  Returns a stats dict."""
     mod_name, sc_name, shard, n_shards, tier, base_seed = args
@@ -276,8 +280,9 @@ def _run_shard(args):
                 os.environ.get("VERIF_SHRINK_S") or (45.0 if tier == "quick" else 180.0)
             )
             if time.time() - state["shrink_t0"] > limit:
-                if case_key(case) != case_key(state["last_fail"]["case"]):
-                    return False
+                # stop the shrinker for good (generating further candidates can cost far
+                # more than judging them); the best failing case so far is already recorded
+                raise _ShrinkTimeout()
         try:
             ctx, discs = run_oracle(mod, sc, case, tier)
         except load.HarnessError as e:
@@ -359,7 +364,7 @@ def _run_shard(args):
 
                 try:
                     test()
-                except _Found:
+                except (_Found, _ShrinkTimeout):
                     pass
                 except hypothesis.errors.Flaky as e:
                     # non-deterministic SUT behaviour: keep the recorded failing case
